@@ -22,6 +22,8 @@
 (*                 occurrence range of its own (1, 0..1, 1..unbounded)       *)
 (*   (root may be mixed="true": character data between its children)       *)
 (*   type Node   = sequence(v: int, n: Node?)                               *)
+(*   [buyer(info(name, email?)), seller(info(code) + @rating)]: two local   *)
+(*                 elements of one name with different anonymous types      *)
 (* Validity is CONSTRUCTIVE (DocOf builds a valid instance from an index);  *)
 (* the substitution relation is defined twice - as a fixpoint (used by the  *)
 (* construction) and as a walk up the parent chain (the acceptor) - and TLC *)
@@ -117,7 +119,12 @@ DocOf(s, k) ==
       attrs == IF s.agrp THEN << [name |-> "a1", v |-> "5"] >> \o (IF k % 2 = 0 THEN << [name |-> "a2", v |-> "two"] >> ELSE <<>>) ELSE <<>>
       \* the importing schema's own type called Base (content: one element z), next to the library's Base
       own == IF s.split = "importSameName" THEN << Elem(T, "own", NONE, <<>>, "", << Leaf(T, "z", "zed") >>) >> ELSE <<>>
-      kids == heads \o also \o own \o e \o g \o r \o w
+      \* two sibling local elements, each declaring a local element of the SAME name (info) with a DIFFERENT anonymous type
+      tw == IF s.twins
+            THEN << Elem(T, "buyer", NONE, <<>>, "", << Elem(T, "info", NONE, <<>>, "", << Leaf(T, "name", "al") >> \o (IF k % 2 = 0 THEN << Leaf(T, "email", "a@b") >> ELSE <<>>)) >>),
+                    Elem(T, "seller", NONE, <<>>, "", << Elem(T, "info", NONE, << [name |-> "rating", v |-> "4.5"] >>, "", << Leaf(T, "code", "42") >>) >>) >>
+            ELSE <<>>
+      kids == heads \o also \o own \o e \o tw \o g \o r \o w
       \* mixed content (complexType mixed="true"): character data before, between and after the children;
       \* texts[j] precedes child j, texts[Len(kids) + 1] follows the last child ("" = no text there)
       texts == [j \in 1..(Len(kids) + 1) |-> IF s.mixed /\ (j + k) % 2 = 0 THEN <<"tx", "ty", "tz">>[(j % 3) + 1] ELSE ""]
